@@ -279,10 +279,17 @@ def impl(case):
                         # (x, y) although the variable is (y, x) - the variable's own dims are what counts
                         ds = xr.Dataset(coords={"x": np.array(ge), "y": np.array(gn)})
                         ds["v"] = (("y", "x"), vals)
+                    vals0 = vals.copy()      # (xarray wraps `vals` without copying it)
                     out = vd.convexhull_mask(dc, grid=ds, projection=f)
                     blank = np.isnan(out.v.values)
-                    if not np.array_equal(blank, ~arr) or not np.array_equal(out.v.values[~blank], vals[~blank]):
+                    if not np.array_equal(blank, ~arr) or not np.array_equal(out.v.values[~blank], vals0[~blank]):
                         raise RuntimeError("grid form is not consistent with the array form")
+                    # the caller's grid is an input: it is left as it was, so masking it again (a sweep over settings) gives the same answer
+                    if not np.array_equal(ds.v.values, vals0) or not np.array_equal(vals, vals0):
+                        raise RuntimeError("masking wrote into the grid it was given")
+                    again = vd.convexhull_mask(dc, grid=ds, projection=f)
+                    if not np.array_equal(np.isnan(again.v.values), blank):
+                        raise RuntimeError("masking the same grid a second time gives another mask")
                 return [bool(v) for v in arr.ravel()]
             ge, gn, vals, proj, method, antialias, kw = a
             f = PROJS[proj[0]](proj[1])
